@@ -14,11 +14,22 @@ Definition sp_items (items : list (nat * bytes)) : bytes := concat (map sp_item 
 Definition cols (l : list (nat * bytes)) : list (nat * bytes) :=
   map (fun p => ((fst p - length (snd p))%nat, snd p)) l.
 
-(* a device / interface name: non-empty, printable, no blanks (':' '/' '!' digits allowed) *)
-Definition is_graph (c : Z) : bool := (33 <=? c) && (c <=? 126).
-Definition name_ok (n : bytes) : bool := match n with [] => false | _ => forallb is_graph n end.
+(* Names are the bytes the kernel holds; what a Python caller sees is their str (Text.dec).
+   An interface name (any bytes: ':' '/' '!' digits, non-ASCII ...) must survive str.strip() -- first
+   and last character not a str blank -- and cannot contain a line break; blanks inside are fine.
+   A block-device name is one whitespace-separated token: no str blank anywhere. *)
+Definition net_name_ok (n : bytes) : bool :=
+  uends_ok (dec n) && negb (contains 10 (dec n)) && negb (contains 13 (dec n)).
+Definition disk_name_ok (n : bytes) : bool := utok_ok (dec n).
+(* dev_valid_name() of net/core/dev.c: 1..15 bytes, not "." / "..", no '/', ':' or kernel isspace()
+   (\t \n \v \f \r ' ' and 0xA0) *)
+Definition kernel_isspace (b : Z) : bool := ((9 <=? b) && (b <=? 13)) || (b =? 32) || (b =? 160).
+Definition dev_valid_name (n : bytes) : bool :=
+  match n with [] => false | _ => true end && (Nat.ltb (length n) 16)
+  && negb (beqb n [46]) && negb (beqb n [46; 46])
+  && forallb (fun b => (1 <=? b) && (b <=? 255) && negb (b =? 47) && negb (b =? 58) && negb (kernel_isspace b)) n.
 
-Fixpoint nodupb (l : list bytes) : bool :=
+Fixpoint nodupb (l : list (list Z)) : bool :=
   match l with
   | [] => true
   | x :: r => negb (existsb (beqb x) r) && nodupb r
@@ -36,8 +47,8 @@ Definition nic_counters (i : knic) : list bytes :=
   [rx_bytes i; rx_packets i; rx_errs i; rx_drop i; rx_fifo i; rx_frame i; rx_compressed i; rx_multicast i;
    tx_bytes i; tx_packets i; tx_errs i; tx_drop i; tx_fifo i; tx_colls i; tx_carrier i; tx_compressed i].
 
-Definition wf_nic (i : knic) : bool := name_ok (n_name i) && forallb is_dec (nic_counters i).
-Definition wf_nics (l : list knic) : bool := forallb wf_nic l && nodupb (map n_name l).
+Definition wf_nic (i : knic) : bool := net_name_ok (n_name i) && forallb is_dec (nic_counters i).
+Definition wf_nics (l : list knic) : bool := forallb wf_nic l && nodupb (map (fun i => dec (n_name i)) l).
 
 Definition netdev_hdr1 : bytes :=
   bs "Inter-|   Receive                                                |  Transmit".
@@ -84,7 +95,7 @@ Definition nt_nic (s : nicstat) : ntuple :=
    (bs "errin", errin s); (bs "errout", errout s); (bs "dropin", dropin s); (bs "dropout", dropout s)].
 
 Definition spec_net (pernic : bool) (l : list knic) : front_res :=
-  if pernic then RDict (map (fun i => (n_name i, nt_nic (spec_nic i))) l)
+  if pernic then RDict (map (fun i => (dec (n_name i), nt_nic (spec_nic i))) l)
   else match l with
        | [] => RNone
        | _ => RTuple (nt_nic (nic_sum (map spec_nic l)))
@@ -142,9 +153,9 @@ Definition lay_ok (y : dlayout) : bool :=
   | _ => true
   end.
 Definition wf_disk (d : kdisk) : bool :=
-  is_dec (d_major d) && is_dec (d_minor d) && name_ok (d_name d)
+  is_dec (d_major d) && is_dec (d_minor d) && disk_name_ok (d_name d)
   && forallb is_dec (lay_fields (d_lay d)) && lay_ok (d_lay d).
-Definition wf_disks (l : list kdisk) : bool := forallb wf_disk l && nodupb (map d_name l).
+Definition wf_disks (l : list kdisk) : bool := forallb wf_disk l && nodupb (map (fun d => dec (d_name d)) l).
 
 Definition is_l24 (d : kdisk) : bool := match d_lay d with L24 _ _ => true | _ => false end.
 Definition no_l24 (l : list kdisk) : bool := forallb (fun d => negb (is_l24 d)) l.
@@ -189,22 +200,47 @@ Definition nt_disk (s : diskstat) : ntuple :=
    (bs "read_merged_count", read_merged_count s); (bs "write_merged_count", write_merged_count s);
    (bs "busy_time", busy_time s)].
 
-(* answer demanded for a device list, given the per-device reading [view] *)
-Definition disks_answer (view : kdisk -> diskstat) (perdisk : bool) (l : list kdisk) : front_res :=
-  if perdisk then RDict (map (fun d => (d_name d, nt_disk (view d))) l)
-  else match filter d_whole l with
+(* /sys/block has one entry per whole disk -- physical or virtual (loopN, ramN, dm-N, mdN, zramN) --
+   named like the disk with every '/' written '!'.  A device counts as a whole disk exactly when
+   that entry is present: *)
+Definition sysfs_name (n : text) : text := map (fun c => if c =? 47 then 33 else c) n.
+Definition listed (sysblock : text -> bool) (d : kdisk) : bool := sysblock (sysfs_name (dec (d_name d))).
+
+(* answer demanded for a device list, given the per-device reading [view] and which devices are
+   whole disks *)
+Definition disks_answer (view : kdisk -> diskstat) (whole : kdisk -> bool) (perdisk : bool) (l : list kdisk)
+  : front_res :=
+  if perdisk then RDict (map (fun d => (dec (d_name d), nt_disk (view d))) l)
+  else match filter whole l with
        | [] => RNone
        | ws => RTuple (nt_disk (disk_sum (map view ws)))
        end.
-Definition spec_disks := disks_answer spec_disk.
+Definition spec_disks (sysblock : text -> bool) := disks_answer spec_disk (listed sysblock).
 
-(* /sys/block has one entry per whole disk, named like the disk with '/' written '!' *)
-Definition sysfs_name (n : bytes) : bytes := map (fun c => if c =? 47 then 33 else c) n.
-Definition sysblock_agrees (sysblock : bytes -> bool) (l : list kdisk) : bool :=
-  forallb (fun d => Bool.eqb (sysblock (sysfs_name (d_name d))) (d_whole d)) l.
+(* the kernel's own flag agrees with the listing *)
+Definition sysblock_agrees (sysblock : text -> bool) (l : list kdisk) : bool :=
+  forallb (fun d => Bool.eqb (listed sysblock d) (d_whole d)) l.
 (* the /sys/block listing of a device list *)
-Definition sysblock_of (l : list kdisk) (entry : bytes) : bool :=
-  existsb (fun d => d_whole d && beqb entry (sysfs_name (d_name d))) l.
+Definition sysblock_of (l : list kdisk) (entry : text) : bool :=
+  existsb (fun d => d_whole d && beqb entry (sysfs_name (dec (d_name d)))) l.
+
+(* ---- no double counting.  Ghost accounting of the block layer: [own d] is what was submitted to
+   the device node d itself; a partition's counter is its own I/O, a whole disk's counter is its own
+   I/O plus that of all its partitions (part_stat_add accounts to the partition and to part0). *)
+Definition zsum (l : list Z) : Z := fold_right Z.add 0 l.
+Definition part_share (sysblock : text -> bool) (own : kdisk -> Z) (parent : kdisk -> bytes) (w p : kdisk) : Z :=
+  if negb (listed sysblock p) && beqb (parent p) (d_name w) then own p else 0.
+Definition kernel_shaped (sysblock : text -> bool) (own : kdisk -> Z) (parent : kdisk -> bytes)
+           (fld : kdisk -> Z) (l : list kdisk) : Prop :=
+  NoDup (map d_name l) /\
+  (* every partition's parent is a listed whole disk of the table *)
+  (forall p, In p l -> listed sysblock p = false ->
+     fld p = own p /\ exists w, In w l /\ listed sysblock w = true /\ d_name w = parent p) /\
+  (forall w, In w l -> listed sysblock w = true ->
+     fld w = own w + zsum (map (part_share sysblock own parent w) l)).
+(* a projection of the result that sums field-wise *)
+Definition linear (f : diskstat -> Z) : Prop :=
+  f disk_zero = 0 /\ forall a b, f (disk_add a b) = f a + f b.
 
 (* what the code as written reads from a 2.4 line: #blocks as the read count, everything
    else one column to the left (this is the known finding; [model_view] = [spec_disk]
@@ -226,18 +262,19 @@ Definition k_sys_stat (e : ksys) : bytes :=
   | [] => [10]
   | (n, f) :: r => repeat 32 n ++ f ++ sp_items r ++ [10]
   end.
+(* a directory entry name: any bytes without '/' *)
 Definition wf_sys (e : ksys) : bool :=
-  name_ok (y_name e) && negb (contains 47 (y_name e))
+  negb (contains 47 (dec (y_name e)))
   && forallb is_dec (iostat_list (y_stat e) ++ y_extra e).
-Definition wf_syss (l : list ksys) : bool := forallb wf_sys l && nodupb (map y_name l).
+Definition wf_syss (l : list ksys) : bool := forallb wf_sys l && nodupb (map (fun e => dec (y_name e)) l).
 Definition spec_sys (perdisk : bool) (l : list ksys) : front_res :=
-  if perdisk then RDict (map (fun e => (y_name e, nt_disk (of_iostat (y_stat e)))) l)
+  if perdisk then RDict (map (fun e => (dec (y_name e), nt_disk (of_iostat (y_stat e)))) l)
   else match filter y_whole l with
        | [] => RNone
        | ws => RTuple (nt_disk (disk_sum (map (fun e => of_iostat (y_stat e)) ws)))
        end.
-Definition sys_agrees (sysblock : bytes -> bool) (l : list ksys) : bool :=
-  forallb (fun e => Bool.eqb (sysblock (y_name e)) (y_whole e)) l.
+Definition sys_agrees (sysblock : text -> bool) (l : list ksys) : bool :=
+  forallb (fun e => Bool.eqb (sysblock (dec (y_name e))) (y_whole e)) l.
 
 (* ------------------------------------------------ disk_usage *)
 (* property text: used = total - free-for-root, free = space available to unprivileged users,
